@@ -139,7 +139,7 @@ void h_query(void) {
                 V_ASSERT(!(mac6_eq(sn.node[i].rs, g_rec_desc + 2) && mac6_eq(sn.node[i].es, g_rec_desc + 8)), "C07: an observation already reported is not kept (reported exactly once)");
         }
     }
-    V_ASSERT(g_live_blocks == live0 - (long)exp, "C19: QueryResp buffer released, reported observations freed");
+    V_ASSERT(sn.n <= pre_n && g_live_blocks == live0 - ((long)pre_n - (long)sn.n), "C19: after a Query exactly the observations still recorded stay allocated; the QueryResp buffer and retired observations are released");
     /* C05's domain: commands come from the active mapper or while none is active; a stranger's Query is left unconstrained */
     if (!in.st.known) V_ASSERT(ST->mapper_known == 1 && mac6_eq(ST->mapper_real.a, in.frame + F_RSRC) && mac6_eq(ST->mapper_apparent.a, in.frame + F_ESRC),
                                "C05: a Query that opens the session makes its real source the mapper and its Ethernet source the apparent mapper");
@@ -221,7 +221,7 @@ void h_probe(void) {
         mac6_set(q.rs, in.frame + F_RSRC); mac6_set(q.es, in.frame + F_ESRC); mac6_set(q.ed, in.frame + F_EDST);
         V_ASSERT(snap_has(&sn, &q), "C07: new observation recorded with real source, Ethernet source, Ethernet destination and kind as received");
     }
-    V_ASSERT(g_live_blocks == live0 + (grew ? 1 : 0), "C19: only a newly recorded observation stays allocated after a Probe/Train");
+    V_ASSERT(sn.n <= pre_n + 1u && g_live_blocks == live0 + (long)sn.n - (long)pre_n, "C19: after a Probe/Train exactly the recorded observations stay allocated (at most one more than before), every other buffer is released");
     V_ASSERT(ST->mapper_known == in.st.known && mac6_eq(ST->mapper_real.a, in.st.mreal), "C05: Probe/Train never changes the mapper");
     V_WITNESS("h_probe end");
 }
